@@ -73,6 +73,7 @@ def leaves(mode, tier):
     out.append(("SolidFill", lambda: urwid.SolidFill("x")))
     out.append(("BigText", lambda: urwid.BigText("1", urwid.Thin3x3Font())))
     out.append(("BigText[half]", lambda: urwid.BigText("a1", urwid.HalfBlock5x4Font())))
+    out.append(("Text[260 lines]", lambda: T("\n".join(f"{i % 10}" for i in range(260)))))  # more rows than any small-integer shortcut
     out.append(("BarGraph", lambda: _bargraph()))
     out.append(("BarGraph[hlines]", lambda: _bargraph([33, 32, 31, 5, 5])))
     out.append(("BarGraph[2-series,hlines]", lambda: _bargraph([50], two=True)))
@@ -83,6 +84,17 @@ def leaves(mode, tier):
     out.append(("Columns[empty]", lambda: urwid.Columns([])))
     out.append(("GridFlow[empty]", lambda: urwid.GridFlow([], 3, 1, 1, "left")))
     return out
+
+
+def _via_contents(cont, items):
+    cont.contents[:] = [(w, cont.options(*o) if o[1] is not None else cont.options(o[0])) for w, o in items]
+    return cont
+
+
+def _quiet(fn):
+    with warnings.catch_warnings():
+        warnings.simplefilter("ignore")
+        return fn()
 
 
 def _bargraph(hlines=None, two=False):
@@ -135,6 +147,7 @@ def constructors(tier):
         add(f"Filler[{vn},2]", B, lambda c, va=va: urwid.Filler(c, va, 2))
     add("Filler[rel70,rel50,t1]", B, lambda c: urwid.Filler(c, ("relative", 70), ("relative", 50), top=1))
     add("Filler[middle,rel40,min2,b1]", B, lambda c: urwid.Filler(c, "middle", ("relative", 40), min_height=2, bottom=1))
+    add("Filler[top,height=flow]", F, lambda c: _quiet(lambda: urwid.Filler(c, "top", height="flow")))  # the old spelling of 'pack'
     add("Filler[bottom,pack,t1b1]", F, lambda c: urwid.Filler(c, "bottom", top=1, bottom=1))
     # simple decorations
     add("AttrMap", ANY, lambda c: urwid.AttrMap(c, "a", "b"))
@@ -158,6 +171,10 @@ def constructors(tier):
     add("Pile[weightSolid,given1;f1]", B, lambda c: urwid.Pile([("weight", 1, S("s")), (1, c)], focus_item=1))
     add("Pile[weight3,weight1Solid]", B, lambda c: urwid.Pile([("weight", 3, c), ("weight", 1, S("s"))]))
     add("Pile[pack,weightSolid]", F, lambda c: urwid.Pile([("pack", c), S("s")]))
+    # options written the way Pile.options() / Columns.options() return them (plain strings) and assigned through .contents
+    add("Pile[opt-given2,opt-pack]", B, lambda c: _via_contents(urwid.Pile([]), [(c, ("given", 2)), (T("z"), ("pack", None))]))
+    add("Pile[opt-pack,opt-weight]", F, lambda c: _via_contents(urwid.Pile([]), [(c, ("pack", None)), (T("z"), ("weight", 1))]))
+    add("Columns[opt-given3,opt-weight]", FB, lambda c: _via_contents(urwid.Columns([]), [(c, ("given", 3)), (S("s") if False else T("z"), ("weight", 1))]))
     add("Pile[weight0-flow,Text]", F, lambda c: urwid.Pile([("weight", 0, c), T("z")]))
     add("Pile[x3flow]", F, lambda c: urwid.Pile([T("y"), c, ("pack", T("z\nz"))], focus_item=1))
     add("Pile[x3box]", B, lambda c: urwid.Pile([("pack", T("y")), c, ("pack", T("z\nz"))], focus_item=1))
